@@ -157,6 +157,10 @@ func (w *ClientWorld) onComplete(r *creq) service.OnCompleteFunc {
 }
 
 // Issue performs a client API call; kind: pub0 pub1 pub2 sub unsub ping.
+// FailingCallbacks: the message callbacks of every other Subscribe request (the first one
+// included) return an error after taking the message.
+var FailingCallbacks bool
+
 func (w *ClientWorld) Issue(kind string, filters []string, qoss []byte, payload string) (*creq, error) {
 	r := &creq{Idx: len(w.Requests), Kind: kind, Filters: filters, QoSs: qoss, SentAt: w.Srv.SentAck}
 	if len(kind) == 4 && kind[:3] == "pub" {
@@ -179,6 +183,10 @@ func (w *ClientWorld) Issue(kind string, filters []string, qoss []byte, payload 
 		idx := r.Idx
 		err = w.Cl.Subscribe(m, w.onComplete(r), func(msg *message.PublishMessage) error {
 			w.Delivered[idx] = append(w.Delivered[idx], fmt.Sprintf("%s=%s@%d", msg.Topic(), msg.Payload(), msg.QoS()))
+			if FailingCallbacks && idx%2 == 0 {
+				// an application callback that reports an error: nobody else's business
+				return fmt.Errorf("application error in the callback of request %d", idx)
+			}
 			return nil
 		})
 		r.Granted = make([]bool, len(filters))
